@@ -82,6 +82,21 @@ def check_loop_exits(ctx, rule, paths):
         elif p.outcome[0] == 'raise':
             ctx.violation(rule, 'exit:raises:%s' % p.outcome[1], f_pa.loc(), 'parse_all is left by %s on path %s' % (p.outcome[1], p.describe()[:120]))
     ctx.floor(rule, nb + nfall, 2, 'loop exits (statements and returning paths) of parse_all')
+    # an interrupted read ends the reading: readline() that is interrupted has already consumed (and dropped) part of a line, so reading on
+    # would pass the torn rest through as if it were a line of input
+    def mr2(e):
+        return ['KeyboardInterrupt'] if (e.ftext or '').endswith('.readline') else ()
+    n_int = 0
+    for p in paths_of(repo, f_pa, may_raise=mr2, while_unroll=2):
+        evs = p.events
+        for i, e in enumerate(evs):
+            if e.kind == 'raised-by-call' and e.extra == 'KeyboardInterrupt':
+                n_int += 1
+                later = [x for x in evs[i + 1:] if x.kind == 'call' and x.ftext and re.search(r'\.(readline|read|readlines)$', x.ftext)]
+                ctx.check(not later, rule, 'interrupt:ends-reading', f_pa.loc(), 'after an interrupted read nothing more is read',
+                          'after a KeyboardInterrupt inside readline() the loop reads on (%s): the part of the line consumed before the interrupt is lost and the rest is passed through as text'
+                          % (later[0].text[:40] if later else ''))
+    ctx.floor(rule, n_int, 1, 'interrupted reads of parse_all')
 
 
 # exceptions that the (over-approximating) call graph lets escape but that cannot occur, with the rule that shows it
@@ -260,7 +275,7 @@ def run(ctx):
     ctx.floor('C08.2', len(own), 1, 'not-a-message raise in parse.message')
     # no RuntimeError can come out of the listener dispatch (a line never yields both a shown message and a pass-through item)
     f_cim = repo.func('ConnectionImpl.message')
-    disp = [s for s in cg.sites.get(f_cim, []) if norm(s.node.func) == 'self.listener.connection_got_new_message']
+    disp = [s for s in cg.sites.get(f_cim, []) if not s.prop and norm(s.node.func) == 'self.listener.connection_got_new_message']
     ctx.floor('C08.2', len(disp), 1, 'listener dispatch in ConnectionImpl.message')
     for s in disp:
         esc = set()
